@@ -56,7 +56,7 @@ Print Assumptions C01_source_tie.
 Example C01_nonvacuous :
   let fs := [([47;112;47;97;46;106;115], FJs [IBump; ISet 1 1; IReq [46;47;98] false; IThrow 7]);
              ([47;112;47;98;46;106;115], FJs [IBump; IReq [46;47;97] false; ISet 2 2])] in
-  let nr := {| n_registry := []; n_global := []; n_core := []; n_loader_reqs := [] |} in
+  let nr := {| n_registry := []; n_global := []; n_core := []; n_loader_reqs := []; n_loader_throws := [] |} in
   let st := run_tops fs nr 10 init_state [(parse [47;112], [46;47;97]); (parse [47;112], [46;47;97])] in
   Inv st /\ counters st = [([47;112;47;97;46;106;115], 2%nat); ([47;112;47;98;46;106;115], 1%nat)] /\
   cache_get (files_cache st) [47;112;47;97] = None.
